@@ -153,6 +153,9 @@ struct Sys {
     scale: i128,
     cap: i64,
     thin: bool,
+    /// the token's own address is part of the observed universe (driver runs)
+    selfacct: bool,
+    min_temp: u32,
 }
 
 macro_rules! token_call {
@@ -170,8 +173,11 @@ macro_rules! token_call {
 }
 
 impl Sys {
-    fn new(flname: &str, regime: &str, accts: &[&str], cap: i64, thin: bool) -> Sys {
-        let e = new_env(&LedgerCfg { seq: NOW0, min_temp: 1, min_persistent: 1_000_000, max_ttl: MAX_TTL });
+    /// `selfacct` runs (the random driver's) alternate between a minimum temporary-entry lifetime of 1 (an allowance
+    /// entry lives exactly as long as asked) and 16 (the network's default: an entry outlives a short approval, so
+    /// only the explicit expiry comparison protects)
+    fn new(flname: &str, regime: &str, accts: &[&str], cap: i64, thin: bool, selfacct: bool, min_temp: u32) -> Sys {
+        let e = new_env(&LedgerCfg { seq: NOW0, min_temp, min_persistent: 1_000_000, max_ttl: MAX_TTL.max(min_temp + 4) });
         let mut all: Vec<&str> = accts.to_vec();
         all.push("m");
         let names = Names::new(&e, &all);
@@ -190,7 +196,14 @@ impl Sys {
             "capped" => (Fl::Capped, e.register(capped::ExampleContract, ((cap as i128) * scale,))),
             f => panic!("flavour {f}"),
         };
-        Sys { e, names, accts: accts.iter().map(|s| s.to_string()).collect(), c, fl, flname: flname.to_string(), scale, cap, thin }
+        // "t": the token contract's own address - a possible recipient like any other (never a sender)
+        let mut names = names;
+        names.insert("t", c.clone());
+        let mut accts: Vec<String> = accts.iter().map(|s| s.to_string()).collect();
+        if selfacct {
+            accts.push("t".to_string());
+        }
+        Sys { e, names, accts, c, fl, flname: flname.to_string(), scale, cap, thin, selfacct, min_temp }
     }
 
     fn units(&self, v: i128) -> Value {
@@ -368,7 +381,7 @@ impl Sys {
     }
 
     fn reset_event(&self, regime: &str) -> Value {
-        json!({"op": {"op": "reset", "flavour": self.flname, "regime": regime, "cap": self.cap, "owner": "a", "impl": if self.thin { "thin" } else { "example" },
+        json!({"op": {"op": "reset", "flavour": self.flname, "regime": regime, "cap": self.cap, "owner": "a", "impl": if self.thin { "thin" } else { "example" }, "selfacct": self.selfacct, "min_temp": self.min_temp,
                       "from": "none", "to": "none", "sp": "none", "amt": 0, "until": 0, "auth": [], "k": 0},
                "now": NOW0, "res": "ok", "err": 0, "obs": self.obs(), "evs": []})
     }
@@ -385,7 +398,11 @@ fn main() {
                 let regime = b.cfg.get("regime").and_then(|v| v.as_str()).unwrap_or("S").to_string();
                 let cap = b.cfg.get("cap").and_then(|v| v.as_i64()).unwrap_or(3);
                 let thin = b.cfg.get("impl").and_then(|v| v.as_str()) == Some("thin");
-                let mut sys = Sys::new(&fl, &regime, &["a", "b", "c"], cap, thin);
+                let selfacct = b.cfg.get("selfacct").and_then(|v| v.as_bool()).unwrap_or(false);
+                let accts4 = ["a", "b", "c", "d"];
+                let accts3 = ["a", "b", "c"];
+                let min_temp = b.cfg.get("min_temp").and_then(|v| v.as_u64()).unwrap_or(1) as u32;
+                let mut sys = Sys::new(&fl, &regime, if selfacct { &accts4 } else { &accts3 }, cap, thin, selfacct, min_temp);
                 t.reset(sys.reset_event(&regime));
                 for op in &b.ops {
                     if let Some(ev) = sys.step(op) {
@@ -408,7 +425,9 @@ fn main() {
                 };
                 let regime = if (run / FLAVOURS.len()) % 3 == 2 { "O" } else { "S" };
                 let cap = if regime == "O" { 6 } else { *pick(&mut r, &[3i64, 5, 9]) };
-                let mut sys = Sys::new(fl, regime, &accts, cap, thin);
+                let mut sys = Sys::new(fl, regime, &accts, cap, thin, true, if (run / FLAVOURS.len()) % 2 == 1 { 16 } else { 1 });
+                // allowances that lapsed by the passing of time since the previous call: (owner, spender, amount)
+                let mut lapsed: Vec<(&str, &str, i64)> = vec![];
                 t.reset(sys.reset_event(regime));
                 let amts: Vec<i64> = if regime == "O" { vec![0, 1, 1, 2, 3, 5, 6, 7, 7, -1] } else { vec![-1, 0, 1, 1, 2, 2, 3, 4, 7] };
                 let mut holders: Vec<&str> = vec![];
@@ -418,7 +437,7 @@ fn main() {
                     let now = seq(&sys.e) as i64;
                     let k = if r.gen_ratio(1, 25) { 3000 } else { *pick(&mut r, &[0i64, 0, 0, 0, 1, 1, 2, 5]) };
                     let from = if !holders.is_empty() && r.gen_bool(0.7) { *pick(&mut r, &holders) } else { *pick(&mut r, &accts) };
-                    let to = *pick(&mut r, &accts);
+                    let to = if r.gen_ratio(1, 12) { "t" } else { *pick(&mut r, &accts) };
                     let sp = *pick(&mut r, &accts);
                     let mut amt = *pick(&mut r, &amts);
                     // state feedback: mostly an amount the sender can afford
@@ -444,7 +463,11 @@ fn main() {
                     let kind = if (kind == "transfer_from" || kind == "burn_from") && pairs.is_empty() && r.gen_bool(0.7) { "approve" } else { kind };
                     let good = r.gen_bool(0.8);
                     // state feedback: spend along a live allowance most of the time
-                    let (from, sp, amt) = if (kind == "transfer_from" || kind == "burn_from") && !pairs.is_empty() && r.gen_bool(0.75) {
+                    let (from, sp, amt) = if (kind == "transfer_from" || kind == "burn_from") && !lapsed.is_empty() && r.gen_bool(0.4) {
+                        // spend along an allowance that has just lapsed: exactly what it was worth, or a part of it
+                        let (o, s2, a) = *pick(&mut r, &lapsed);
+                        (o, s2, if r.gen_bool(0.6) { a } else { r.gen_range(1..=a.max(1)) })
+                    } else if (kind == "transfer_from" || kind == "burn_from") && !pairs.is_empty() && r.gen_bool(0.75) {
                         let (o, s2, a) = *pick(&mut r, &pairs);
                         let cap = a.min((*bals.get(o).unwrap_or(&0)).max(1));
                         let v = match r.gen_range(0..8) { 0 => a, 1 => a + 1, 2 => 0, _ => r.gen_range(1..=cap.max(1)) };
@@ -504,6 +527,7 @@ fn main() {
                         // state feedback: who holds tokens now
                         holders = accts.iter().copied().filter(|a| ev["obs"]["bal"][*a].as_i64().unwrap_or(0) > 0).collect();
                         bals = accts.iter().map(|a| (a.to_string(), ev["obs"]["bal"][*a].as_i64().unwrap_or(0))).collect();
+                        let before = pairs.clone();
                         pairs.clear();
                         for o in accts.iter().copied() {
                             for s2 in accts.iter().copied() {
@@ -512,6 +536,9 @@ fn main() {
                                     pairs.push((o, s2, a));
                                 }
                             }
+                        }
+                        if matches!(s(&op, "op"), "advance") || n(&op, "k") > 0 {
+                            lapsed = before.iter().copied().filter(|(o, s2, _)| !pairs.iter().any(|(o2, s3, _)| o2 == o && s3 == s2)).collect();
                         }
                         t.step(ev);
                     }
